@@ -37,6 +37,9 @@ def var_cases(rng, tier):
         c["keys"] = [[k] for k in C.adapt_keys(rng, keys, c["kenc"][0])]
         if c["tf"]:
             c["kcont"] = "np"
+        if n >= 2 and rng.random() < 0.3 and c["kenc"][0] != "cat" and not (c["kenc"][0] == "str" and c["keys"][0][0] == NULL) and c["mask"]["k"] != "pos" \
+                and not (c["mask"]["k"] == "slice" and c["mask"]["s"][2] not in (-997, 1)):
+            c["T"] = 2          # chunk-wise factorized key
         out.append(c)
     for _ in range(1500 if tier == "quick" else 20000):
         n = rng.randrange(4, 30)
@@ -84,6 +87,8 @@ def apply_cases(rng, tier):
             kenc = rng.pick(["f64", "str", "cat"])
             out.append(dict(fkind=fk, keys=[[k] for k in C.adapt_keys(rng, keys, kenc)], kenc=[kenc], vals=list(vals), mask=bool_or_none(rng, n), tf=tf,
                             vcont=rng.pick(["np", "series"]) if not tf else "np"))
+            if n >= 2 and rng.random() < 0.25 and kenc != "cat" and not (kenc == "str" and keys[0] == NULL):
+                out[-1]["T"] = 2          # chunk-wise factorized key
             if fk == "quantile":
                 out[-1]["q"] = rng.pick([[0.25, 0.5], [0.9, 0.1, 0.5], [0.75, 0.25], [0.5], [0.0, 1.0], [1.0, 0.0]])
     for _ in range(800 if tier == "quick" else 8000):
